@@ -92,11 +92,34 @@ def dig(x):
     return hashlib.sha1(json.dumps(x, sort_keys=True, default=str).encode()).hexdigest()[:14]
 
 
-def do_call(p, call):
-    """one API call -> JSON-able result"""
+def do_call(p, call, held=None):
+    """one API call -> JSON-able result.  held: abandoned iterators that the caller KEEPS referenced (a session left open)"""
     from lark.exceptions import UnexpectedInput, LarkError
     kind, text, k = call
     try:
+        if kind == 'lexhold':
+            it = p.lex(text)
+            out = []
+            for i in range(k):
+                t = next(it, None)
+                if t is None:
+                    break
+                out.append(O.tok_json(t))
+            if held is not None:
+                held.append(it)
+            return {'toks': out}
+        if kind == 'interactivehold':
+            ip = p.parse_interactive(text)
+            it = ip.iter_parse()
+            out = []
+            for i in range(k):
+                t = next(it, None)
+                if t is None:
+                    break
+                out.append(O.tok_json(t))
+            if held is not None:
+                held.append((ip, it))
+            return {'toks': out}
         if kind == 'parse':
             return O.parse_outcome(p, text, positions=True, meta=True, seconds=None)
         if kind == 'lex':
@@ -140,8 +163,9 @@ def do_call(p, call):
 def call_alphabet(gkey, cfgname):
     calls = [('parse', GOOD[gkey][0], -1), ('parse', BADLEX[gkey][0], -1), ('parse', BADPARSE[gkey][0], -1), ('parse', BADPARSE[gkey][1], -1),
              ('lex', GOOD[gkey][0], 2), ('lex', BADLEX[gkey][-1], -1), ('other', '', -1)]
+    calls += [('lexhold', GOOD[gkey][0], 3), ('lexhold', GOOD[gkey][0], 5)]
     if cfgname.startswith('lalr'):
-        calls += [('interactive', GOOD[gkey][0], 3), ('interactive', BADPARSE[gkey][0], -1)]
+        calls += [('interactive', GOOD[gkey][0], 3), ('interactive', BADPARSE[gkey][0], -1), ('interactivehold', GOOD[gkey][0], 4)]
         if 'indenter' not in cfgname:
             calls += [('scan', GOOD[gkey][0] + ' $$ ' + GOOD[gkey][1], 1)]
     return calls
@@ -162,10 +186,11 @@ def run_history(job):
     cfgname, hist = job
     p, gkey = make(cfgname)
     evs = []
+    held = []          # sessions the history leaves open stay referenced until the history ends
     for call in list(hist) + probes(gkey, cfgname):
-        got = do_call(p, tuple(call))
+        got = do_call(p, tuple(call), held)
         fresh_p, _ = make(cfgname)
-        want = do_call(fresh_p, tuple(call))
+        want = do_call(fresh_p, tuple(call), [])
         evs.append({'thread': 0, 'call': list(call), 'res': dig(got), 'fresh': dig(want), 'detail': '' if got == want else json.dumps([got, want])[:500]})
     return {'evs': evs, 'cfg': cfgname, 'history': [list(c) for c in hist], 'schedule': []}
 
